@@ -60,4 +60,57 @@ REPLAY(lc_constant) { Val val; RLC c = mklc(wit, "a", val); i128 k = zval(c.cons
 static RLC mklc_plain(const Wit &w) { RLC c(RLE(mkz(wz(w, "a.f1.f1"))), (RLC::kind_t)(uint32_t)w.u("a.f0")); show("a", c); return c; }
 KQ(is_equality, is_equality, K_EQ) KQ(is_disequation, is_disequation, K_NE) KQ(is_inequality, is_inequality, K_LE) KQ(is_strict_inequality, is_strict_inequality, K_LT)
 REPLAY(kind) { RLC c = mklc_plain(wit); return (uint32_t)c.kind() == (uint32_t)wit.u("a.f0"); }
+
+// ---- PART 2: expressions rebuilt term by term from the witness (struct lein of contracts.c: <A>.e = expression,
+// <A>.m = map header, <A>.t[i] = term i), valuation from the recorded <A>_v<i>.
+static std::string S(const char *a, const std::string &b) { return std::string(a) + b; }
+static RLE mkle(const Wit &w, const char *A, Val &val) {
+  RLE e(mkz(wz(w, S(A, ".e.f1")))); uint64_t n = w.u(S(A, ".m.f0.f0.f0.f0.f1"));
+  for (uint64_t i = 0; i < n && i < 4; i++) { std::string t = S(A, ".t[") + std::to_string(i) + "]"; uint64_t idx = w.u(t + ".f0.f1.f1");
+    e._map->insert(std::make_pair(mkvar(idx), mkz(wz(w, t + ".f1"))));       // raw: exactly the witness terms
+    std::string vk = S(A, "_v") + std::to_string(i); if (w.has(vk)) val[idx] = (i128)w.s(vk); }
+  crab::outs() << "  " << A << " = "; e.write(crab::outs()); crab::outs() << "\n"; return e; }
+static void showle(const char *n, const RLE &e) { crab::outs() << "  " << n << " = "; e.write(crab::outs()); crab::outs() << "\n"; }
+static i128 coef(const RLE &e, uint64_t idx) { return zval(e[mkvar(idx)]); }
+// representation invariant: strictly increasing variable indices, no zero coefficient
+static bool wf(const RLE &e) { bool first = true; uint64_t prev = 0;
+  for (auto it = e.begin(); it != e.end(); ++it) { auto kv = *it; if (kv.first == ZN(0)) return false; uint64_t ix = kv.second.index(); if (!first && ix <= prev) return false; prev = ix; first = false; }
+  return true; }
+static void showval(const Val &val) { for (auto &kv : val) printf("  valuation: x%llu = %lld\n", (unsigned long long)kv.first, (long long)kv.second); }
+#define GV ((uint64_t)wit.u("g_v"))
+REPLAY(le_is_constant) { return true; }
+REPLAY(le_index) { Val val; RLE a = mkle(wit, "A", val); uint64_t x = wit.u("x.f1.f1"); i128 r = zval(a[mkvar(x)]); i128 spec = 0;
+  for (auto it = a.begin(); it != a.end(); ++it) { auto kv = *it; if (kv.second.index() == x) spec += zval(kv.first); } printf("  e[x%llu] = %lld\n", (unsigned long long)x, (long long)r); return r == spec; }
+REPLAY(le_neg) { Val val; RLE a = mkle(wit, "A", val); RLE r = -a; showle("-A", r); showval(val);
+  return wf(r) && zval(r.constant()) == -zval(a.constant()) && r.size() == a.size() && coef(r, GV) == -coef(a, GV) && eval(r, val) == -eval(a, val); }
+#define RBIN(id, OP) REPLAY(id) { Val val; RLE a = mkle(wit, "A", val), b = mkle(wit, "B", val); RLE r = a OP b; showle("A " #OP " B", r); showval(val); \
+  return wf(r) && zval(r.constant()) == zval(a.constant()) OP zval(b.constant()) && coef(r, GV) == coef(a, GV) OP coef(b, GV) && eval(r, val) == eval(a, val) OP eval(b, val); }
+RBIN(le_add, +) RBIN(le_sub, -)
+REPLAY(le_sub_self) { Val val; RLE a = mkle(wit, "A", val); RLE r = a - a; showle("A - A", r); return r.is_constant() && zval(r.constant()) == 0; }
+static bool scale_post(const RLE &a, const RLE &r, i128 n, uint64_t gv, const Val &val) { showle("n * A", r); showval(val);
+  return wf(r) && zval(r.constant()) == n * zval(a.constant()) && coef(r, gv) == n * coef(a, gv) && eval(r, val) == n * eval(a, val); }
+REPLAY(le_scale) { Val val; RLE a = mkle(wit, "A", val); i128 n = wz(wit, "n"); printf("  n = %lld\n", (long long)n); return scale_post(a, a * mkz(n), n, GV, val); }
+REPLAY(le_scale_long) { Val val; RLE a = mkle(wit, "A", val); int64_t n = (int64_t)wit.u("n"); printf("  n = %lld\n", (long long)n); return scale_post(a, a * n, n, GV, val); }
+#define RVARBIN(id, OP, K) REPLAY(id) { Val val; RLE a = mkle(wit, "A", val); uint64_t x = wit.u("x.f1.f1"); val[x] = (i128)wit.s("x_v"); RLE r = a OP mkvar(x); showle("A " #OP " x", r); showval(val); \
+  return wf(r) && zval(r.constant()) == zval(a.constant()) && coef(r, GV) == coef(a, GV) + (GV == x ? (K) : 0) && eval(r, val) == eval(a, val) + (K) * val[x]; }
+RVARBIN(le_add_var, +, 1) RVARBIN(le_sub_var, -, -1)
+REPLAY(le_ctor_var) { uint64_t x = wit.u("x.f1.f1"); RLE r(mkvar(x)); showle("x", r); return wf(r) && r.size() == 1 && zval(r.constant()) == 0 && coef(r, x) == 1; }
+// n * x: no zero coefficient may be stored (n == 0 must give the constant 0)
+REPLAY(le_ctor_num_var) { uint64_t x = wit.u("x.f1.f1"); i128 n = wz(wit, "n"); RLE r(mkz(n), mkvar(x)); showle("n * x", r);
+  printf("  n = %lld, size() = %llu, is_constant() = %d\n", (long long)n, (unsigned long long)r.size(), r.is_constant());
+  return wf(r) && r.size() == (n != 0 ? 1u : 0u) && zval(r.constant()) == 0 && coef(r, x) == n; }
+REPLAY(le_equal) { Val val; RLE a = mkle(wit, "A", val), b = mkle(wit, "B", val); bool r = a.equal(b); bool same = zval(a.constant()) == zval(b.constant()) && a.size() == b.size();
+  if (same) { auto jt = b.begin(); for (auto it = a.begin(); it != a.end(); ++it, ++jt) { auto p = *it; auto q = *jt; if (p.second.index() != q.second.index() || !(p.first == q.first)) same = false; } }
+  printf("  equal = %d, same terms = %d\n", r, same); return r == same && (!r || eval(a, val) == eval(b, val)); }
+// rename with a real std::map<variable, variable> built from the recorded renaming of the operand's variables
+REPLAY(le_rename) { Val dummy; RLE a = mkle(wit, "A", dummy); std::map<RVAR, RVAR> ren; Val val; std::map<uint64_t, uint64_t> rho; unsigned k = 0;
+  for (auto it = a.begin(); it != a.end(); ++it, ++k) { auto kv = *it; uint64_t x = kv.second.index(); std::string i = std::to_string(k);
+    uint64_t y = wit.u("A_r" + i); rho[x] = y; if (wit.u("A_rh" + i)) { ren.insert(std::make_pair(mkvar(x), mkvar(y))); printf("  rename x%llu -> x%llu\n", (unsigned long long)x, (unsigned long long)y); }
+    val[y] = (i128)wit.s("A_rv" + i); }
+  RLE r = a.rename(ren); showle("rename(A)", r); showval(val);
+  i128 cg = 0, ev = zval(a.constant()); for (auto it = a.begin(); it != a.end(); ++it) { auto kv = *it; uint64_t y = rho[kv.second.index()]; if (y == GV) cg += zval(kv.first); ev += zval(kv.first) * val[y]; }
+  return wf(r) && zval(r.constant()) == zval(a.constant()) && coef(r, GV) == cg && eval(r, val) == ev; }
+// the evaluation-only variants of the checks replay the same postcondition
+#define ALIAS(id) REPLAY(id##_eval) { return replay_##id(wit); }
+ALIAS(le_neg) ALIAS(le_add) ALIAS(le_sub) ALIAS(le_scale) ALIAS(le_scale_long) ALIAS(le_add_var) ALIAS(le_sub_var) ALIAS(le_rename)
 int main(int argc, char **argv) { return replay_main(argc, argv); }
